@@ -21,4 +21,44 @@ CLAIMS = {
   'technique': 'static analysis: forwarding (call-binding) check on the ast '
                'with symbolic single-path evaluation',
  },
+ 'C13': {
+  'text': 'Complete over the registry abstraction: the two resolver '
+          'functions of server and client are evaluated (symbolic path '
+          'enumeration with an oracle over an abstract registry) on all 50 '
+          'consistent presence/absence states x {server, client} and on the '
+          '4 namespace-handler states, and each row is compared with the '
+          'documented precedence and argument prefixing; the four '
+          '_trigger_event dispatchers are shown to consult the class-based '
+          'namespace only when no function handler was found and the four '
+          'trigger_event methods to dispatch to on_<event>. Decides the '
+          'routing decision for every registry configuration rather than '
+          'the two sampled ones.',
+  'note': TRUST + "Assumes event/namespace names differ from the literal "
+          "'*' and registered handlers are truthy. A resolver rewritten "
+          'into a form outside the evaluator (lookup loop, helper in '
+          'another module) yields ANALYSIS-ERROR, not a verdict.',
+  'technique': 'static analysis: finite-domain decision table by symbolic '
+               'path enumeration over the ast',
+ },
+ 'C04': {
+  'text': 'Decides the structural clauses: (asyncio) no suspension point '
+          'lies between the connected-test and the pre_disconnect mark in '
+          'disconnect()/_handle_disconnect(), including inside every '
+          'can_disconnect override, which with R2/R3/R6 is the whole '
+          'at-most-once argument for a single-threaded event loop; every '
+          "path that triggers 'disconnect' is gated by a true "
+          'connected-test, marked, and released on the same (sid, '
+          'namespace); only two functions trigger it; _handle_connect '
+          'admits only served namespaces, refuses None sids without a '
+          'handler, sends CONNECT exactly once on the right side of the '
+          'handler, refuses with the refusal data and releases membership; '
+          'transport loss ends every namespace; ConnectionRefusedError '
+          'table. NOT decided: sid freshness (engine.io), threaded races '
+          '(C20), delivery after disconnect beyond the room structure.',
+  'note': TRUST + 'asyncio tasks interleave only at awaits that can '
+          'suspend (computed as a fixed point over the call graph; abstract '
+          'coroutines count as suspending).',
+  'technique': 'static analysis: path-sensitive guard/order/pairing and '
+               'suspension-window check over the ast and call graph',
+ },
 }
